@@ -169,7 +169,69 @@ def theorem_names(pid):
     return [pid + "." + n for n in names]
 
 
-def proof_obligations(pid, thorough=False):
+def _count_axioms(res, names, out):
+    """parse `#print axioms` output for `names`; count discharged obligations, record problems"""
+    out1 = re.sub(r"\s+", " ", out)
+    for n in names:
+        m = re.search(r"'%s' depends on axioms: \[([^\]]*)\]" % re.escape(n), out1)
+        if m:
+            ax = set(a.strip() for a in m.group(1).split(",") if a.strip())
+        elif re.search(r"'%s' does not depend on any axioms" % re.escape(n), out1):
+            ax = set()
+        else:
+            res["problems"].append("no axiom report for %s" % n)
+            continue
+        res["axioms"][n] = sorted(ax)
+        if ax <= ALLOWED_AXIOMS:
+            res["discharged"] += 1
+        else:
+            res["problems"].append("theorem %s depends on %s" % (n, sorted(ax - ALLOWED_AXIOMS)))
+
+
+def _translated_obligations(res, pmod):
+    """Translator tie.  `pmod.translate(repo)` reads /repo's CURRENT source and returns
+    dict(problems=[...], source=<Lean text: imports, generated definitions, and the committed theorems
+    `generated definition = hand-written model`>, theorems=[fully qualified names]).
+    The text is elaborated in a per-run scratch file (so parallel runs against different trees do not collide) and its
+    theorems are audited like the property theorems: a source change that alters a translated definition breaks a proof
+    obligation at elaboration time, before any input is sampled.  The translator is trusted to render the Python
+    sub-language it accepts faithfully and must refuse (a reported problem) everything else."""
+    t0 = time.time()
+    try:
+        tr = pmod.translate(REPO)
+    except Exception as e:      # the translator is part of the tie: its failure is a broken obligation, not a crash
+        tr = {"problems": ["translator failed: %s: %s" % (type(e).__name__, e)], "source": None, "theorems": []}
+    names = list(tr.get("theorems") or [])
+    res["obligations"] += len(names)
+    res["translated"] = {"theorems": len(names), "definitions": tr.get("definitions", []),
+                         "refused": tr.get("refused", [])}
+    for x in tr.get("problems") or []:
+        res["problems"].append("translator: %s" % x)
+    src = tr.get("source")
+    if not src:
+        return
+    hit = FORBIDDEN.search(strip_lean_comments(src))
+    if hit:
+        res["problems"].append("forbidden construct %r in the translated file" % hit.group(0).strip())
+    scratch = tempfile.mkdtemp(prefix="deapverif-gen-")
+    try:
+        f = os.path.join(scratch, "GenEq.lean")
+        with open(f, "w") as fh:
+            fh.write(src + "\n")
+            for n in names:
+                fh.write("#print axioms %s\n" % n)
+        rc, out = sh(["lake", "env", "lean", f], cwd=LEAN)
+    finally:
+        shutil.rmtree(scratch, ignore_errors=True)
+    res["translated"]["elab_s"] = round(time.time() - t0, 1)
+    if rc != 0:
+        errs = [l for l in out.splitlines() if "error" in l][:8]
+        res["problems"].append("translated definitions no longer provably equal the model:\n%s" % "\n".join(errs or [out[-1500:]]))
+        return
+    _count_axioms(res, names, out)
+
+
+def proof_obligations(pid, thorough=False, pmod=None):
     """Build the theorem file, audit axioms, grep forbidden constructs.
     Returns dict(ok, obligations, discharged, problems, axioms)."""
     res = {"ok": False, "obligations": 0, "discharged": 0, "problems": [], "axioms": {},
@@ -207,21 +269,10 @@ def proof_obligations(pid, thorough=False):
     if rc != 0:
         res["problems"].append("axiom audit failed:\n%s" % out[-2000:])
         return res
-    out1 = re.sub(r"\s+", " ", out)
-    for n in names:
-        m = re.search(r"'%s' depends on axioms: \[([^\]]*)\]" % re.escape(n), out1)
-        if m:
-            ax = set(a.strip() for a in m.group(1).split(",") if a.strip())
-        elif re.search(r"'%s' does not depend on any axioms" % re.escape(n), out1):
-            ax = set()
-        else:
-            res["problems"].append("no axiom report for %s" % n)
-            continue
-        res["axioms"][n] = sorted(ax)
-        if ax <= ALLOWED_AXIOMS:
-            res["discharged"] += 1
-        else:
-            res["problems"].append("theorem %s depends on %s" % (n, sorted(ax - ALLOWED_AXIOMS)))
+    _count_axioms(res, names, out)
+    # translator tie (optional): definitions regenerated from /repo's current source, proved equal to the model
+    if pmod is not None and hasattr(pmod, "translate"):
+        _translated_obligations(res, pmod)
     if thorough:
         rc, out = sh(["lake", "env", "leanchecker", mod], cwd=LEAN, timeout=3000)
         res["leanchecker"] = "ok" if rc == 0 else out[-1500:]
@@ -413,7 +464,7 @@ def run_check(pid, tier, seed, replay=None):
     mult = 2 if drift else 1      # changed code under the model: explore twice as much
 
     # 2. proof obligations
-    po = proof_obligations(pid, thorough=thorough)
+    po = proof_obligations(pid, thorough=thorough, pmod=mod)
 
     # 3 + 4. correspondence and oracle
     cases, hist = [], {}
